@@ -161,6 +161,94 @@ def case_kernel(case):
     return res
 
 
+def _tensor_from_spec(spec, ranks, name):
+    """Operand with explicitly stored defaults / empty sub-fibers (mutation leaves
+    these behind; fromUncompressed never produces them)."""
+    from mc.univ import mktree
+    d = len(ranks)
+    root = mktree(spec, d, tag=0) if d > 1 else mktree(spec, 1, tag=0)
+    return Tensor.fromFiber(list(ranks), root, shape=[2] * d, name=name)
+
+
+def case_explicit(case):
+    name, specs, order, style = case
+    out, ins = EXPRS[name]
+    shapes = {v: 2 for v in index_vars(ins)}
+    feats = {"expr:" + name, "style:" + style, "explicit-operands"}
+    res = []
+    prefix = os.path.join(core.scratch(), "c15e")
+
+    def inputs():
+        return [_tensor_from_spec(sp, r, "ABC"[i]) for i, (sp, r) in enumerate(zip(specs, ins))]
+    try:
+        k0 = Kernel(out, ins, order, {}, style)
+        k0.run(inputs(), zshape=shapes)
+        off = k0.zcontent()
+        k = Kernel(out, ins, order, {}, style)
+        regs = [(r, "iter") for r in k.loop_order()]
+        prepped, Z = k.prepare(inputs(), zshape=shapes)
+        Metrics.beginCollect(prefix)
+        try:
+            for r, t in regs:
+                Metrics.trace(r, type_=t)
+            k.execute(prepped, Z)
+        finally:
+            Metrics.endCollect()
+        dump = Metrics.dump()
+        files = _files(prefix)
+        if k.zcontent() != off:
+            res.append(("transparency", "output-differs-with-collection-on", feats, off, k.zcontent()))
+        for op in ("mul", "add", "update"):
+            got = Compute.numOps(dump, op) if "Compute" in dump else 0
+            if got != k.ledger[op]:
+                res.append(("numOps", "count-" + op, feats, k.ledger[op], got))
+        for r, t in regs:
+            fn = "%s-iter.csv" % r
+            if fn not in files:
+                if k.bodies[r] != 0:
+                    res.append(("numIters", "trace-file-missing", feats, k.bodies[r], None))
+                continue
+            with open(prefix + "-tmp.csv", "w") as f:
+                f.write(files[fn])
+            n = Compute.numIters(prefix + "-tmp.csv")
+            os.remove(prefix + "-tmp.csv")
+            if n != k.bodies[r]:
+                res.append(("numIters", "iteration-count", feats | {"rank-depth:%d" % k.loop_order().index(r)},
+                            k.bodies[r], n))
+        if k.ledger["update"]:
+            core.CUR.nt("explicit")
+    except Exception as ex:
+        if Metrics.isCollecting():
+            try:
+                Metrics.endCollect()
+            except Exception:
+                Metrics.collecting = False
+        _files(prefix)
+        res.append(("kernel-under-collection", "exception:" + type(ex).__name__,
+                    feats | {"site:" + core.exc_site(ex)}, None, core.tb_tail(ex)))
+    return res
+
+
+def shard_explicit(acc, shard, nshards, params):
+    from mc.univ import t2, f1
+    name = params
+    out, ins = EXPRS[name]
+    allv = index_vars(ins)
+    styles = ("two-finger", "leader-follower") if len(ins) > 1 else ("two-finger",)
+    unis = [t2(2, 2, "-01") if len(r) == 2 else f1(2, "-01") for r in ins]
+
+    def gen():
+        for specs in itertools.product(*unis):
+            for order in itertools.permutations(allv):
+                # operands are not swizzled here: keep the loop order concordant with the stored rank order
+                if any([v for v in order if v in r] != list(r) for r in ins):
+                    continue
+                for style in styles:
+                    yield (name, specs, order, style)
+    core.drive(acc, "explicit", case_explicit, gen(), shard, nshards,
+               family="%s[operands with explicit defaults / empty sub-fibers]" % name)
+
+
 def shard_kernels(acc, shard, nshards, params):
     name, alphabet, tile_mode, masks, deadline = params
     out, ins = EXPRS[name]
@@ -336,7 +424,7 @@ def key(S):
     return canon_metrics()
 
 
-CASES = {"history": bfs.replay_case, "kernel": case_kernel}
+CASES = {"history": bfs.replay_case, "kernel": case_kernel, "explicit": case_explicit}
 
 
 def run(ctx):
@@ -355,6 +443,12 @@ def run(ctx):
     if not ctx.only or "kernel" in ctx.only:
         for n, a, t, m in plan:
             ctx.shards(shard_kernels, (n, a, t, m, time.time() + (90 if q else 900)))
+    if not ctx.only or "explicit" in ctx.only:
+        for n in ("rowsum", "sumall", "colsum", "matvec", "elem"):
+            ctx.shards(shard_explicit, n)
+        ctx.bounds["explicit-operands"] = ("rowsum, sumall, colsum, matvec, elem over operand trees of T2(2,2,{-,0,1}) / F1(2,{-,0,1}) "
+                                           "(explicit defaults, empty and zero-only sub-fibers), every concordant loop order, both "
+                                           "styles, every loop rank traced")
     if not ctx.only or "sessions" in ctx.only:
         info = bfs.explore(ctx.acc, SPEC, [("pristine",)], "sessions", max_depth=None,
                            deadline=time.time() + 300)
